@@ -5,6 +5,7 @@ from ..facts import AnalysisBroken
 from ..engine import Engine, run_entry, new_state, mk_obj
 from ..absint import Val
 from ..port import PortModel
+from ..facts import WORD as W
 from ..terms import C, ZERO, INF, short, is_const, Dom, mk_cat
 from .. import mem
 
@@ -16,7 +17,8 @@ TOS = ('in', 'frame', 15)
 OPC = ('in', 'frame', 17)
 KNOWN = ('sym', 'st.mapper_known@entry', 0, 255)
 SEEN_COUNT = ('sym', 'st.see_list_count@entry', 0, (1 << 32) - 1)
-ICON_SIZE = ('sym', 'st.small_icon_size@entry', 0, 32768)
+# any size_t: the entry record is arbitrary (a sentinel such as (size_t)-1 stored by the code under analysis must be representable)
+ICON_SIZE = ('sym', 'st.small_icon_size@entry', 0, (1 << (8 * W)) - 1)
 
 
 class FrameSetup(object):
@@ -50,12 +52,12 @@ class FrameSetup(object):
         fr = mk_obj(st, 'frame', self.frame_size, kind='input', default='sym')
         mk_obj(st, 'ext:ctx', 1, kind='ext', default='unknown')
         so = mk_obj(st, 'st', self.srec.size, kind='heap', default='sym', heap=True)
-        so.cells[((), self.soff('iface_ctx'))] = (8, ('ptr', 'ext:ctx', ZERO))
+        so.cells[((), self.soff('iface_ctx'))] = (W, ('ptr', 'ext:ctx', ZERO))
         if self.fresh_state:
             so.cells.clear()
             so.default = 'zero'
             so.zeroed_n = so.size
-            so.cells[((), self.soff('iface_ctx'))] = (8, ('ptr', 'ext:ctx', ZERO))
+            so.cells[((), self.soff('iface_ctx'))] = (W, ('ptr', 'ext:ctx', ZERO))
             return
         seen = mk_obj(st, 'SEEN', self.prec.size, kind='heap', default='sym', heap=True, weak=True)
         npo = self.prec.field('nextProbe')[1]
@@ -71,7 +73,7 @@ class FrameSetup(object):
                          self.soff('next'): (ZERO, ('ptr', 'OTHER', ZERO))}
         so.cells[((), self.soff('mapper_known'))] = (1, KNOWN)
         so.cells[((), self.soff('see_list_count'))] = (4, SEEN_COUNT)
-        so.cells[((), self.soff('small_icon_size'))] = (8, ICON_SIZE)
+        so.cells[((), self.soff('small_icon_size'))] = (W, ICON_SIZE)
         if self.init_cells:
             pf = dict(so.ptr_fields)
             for off, (w, t) in self.init_cells.items():
